@@ -219,8 +219,31 @@ def shift_signatures(ctx, prog, fn):
                             return ("L",)
                         return tuple(canon(x) for x in k)
                     return k
-                out.add((canon(normX(S, X)) if X is not None else canon(S), canon(normX(Ldef, X)) if X is not None else canon(Ldef)))
+                Sc = canon(normX(S, X)) if X is not None else canon(S)
+                Lc = canon(normX(Ldef, X)) if X is not None else canon(Ldef)
+                # the pair as integer functions of the order length (differently written, equal functions agree);
+                # where the trees cannot be evaluated the canonical trees themselves are compared
+                vals = []
+                try:
+                    for b in range(1, 641):
+                        env = {("bits", "X"): b}
+                        Lval = kev(Lc, env) if Lc != ("L",) else None
+                        if Lval is None:
+                            raise NoValue()
+                        env2 = dict(env)
+                        vals.append((Lval, kev(subst_L(Sc, Lval), env2)))
+                    out.add(("values", hash(tuple(vals))))
+                except NoValue:
+                    out.add(("trees", Sc, Lc))
     return out
+
+
+def subst_L(k, val):
+    if isinstance(k, tuple):
+        if k == ("L",):
+            return ("i", val)
+        return tuple(subst_L(x, val) for x in k)
+    return k
 
 
 def rule_trunc_sib(ctx, prog, chk):
@@ -238,6 +261,9 @@ def rule_trunc_sib(ctx, prog, chk):
                     continue
                 sa, sb = shift_signatures(ctx, prog, fa), shift_signatures(ctx, prog, fb)
                 n += 1
+                if {x[0] for x in sa} != {x[0] for x in sb}:
+                    chk.note("TRUNC-SIB: the truncation of %s / %s can be evaluated on one side only; no claim" % (fa.name, fb.name))
+                    continue
                 if sa == sb:
                     chk.ok("TRUNC-SIB", fb, "shift", "signer and verifier truncate the digest alike (%d site(s))" % len(sa), line=fb.line)
                 else:
